@@ -7,7 +7,7 @@ import sys, glob, importlib
 sys.path.insert(0, os.path.join(V, "lib")); sys.path.insert(0, os.path.join(V, "props"))
 # every props/cNN.py that defines CLAIM = dict(cat=, design=, text=, note=, technique=) is a claimed check
 # only checks the coordinator has reviewed, run on the unchanged tree and mutation-tested are registered
-ACCEPTED = ["C01", "C02", "C03", "C04", "C05", "C06", "C07", "C08", "C09", "C10", "C11", "C13", "C12", "C14", "C16", "C17", "C18", "C19", "C20"]
+ACCEPTED = ["C01", "C02", "C03", "C04", "C05", "C06", "C07", "C08", "C09", "C10", "C11", "C13", "C12", "C14", "C15", "C16", "C17", "C18", "C19", "C20"]
 CLAIMED = {}
 for f in sorted(glob.glob(os.path.join(V, "props", "c[0-9][0-9].py"))):
     mod = importlib.import_module(os.path.basename(f)[:-3])
@@ -16,10 +16,6 @@ for f in sorted(glob.glob(os.path.join(V, "props", "c[0-9][0-9].py"))):
 
 # reasons for properties that are deliberately not claimed (others get the "not yet built" reason)
 NOT_APPLICABLE = {
- "C15": "The statement is about the OUTPUT of two ~2000-line geometric algorithms (incremental Delaunay construction with flips, voro++-style plane cutting) for arbitrary, also exactly degenerate, generator sets. "
-        "A faithful executable Gallina model of either together with a Coq proof that it yields the Voronoi diagram is a research-scale development (3-D flip-algorithm correctness for degenerate input has not been mechanised) "
-        "and cannot be built and tied to this code here; a per-output numerical validity check would be a test, not a theorem. Two ingredients are proved elsewhere: the exact predicates (C17) and the nearest-generator / "
-        "point-location search (C16). See DESIGN.md section 3, C15.",
 }
 
 props = [json.loads(l) for l in open(os.path.join(V, "properties.jsonl"))]
